@@ -598,10 +598,16 @@ func oneLine(s string) string {
 func (w *World) monitor(o Op, before, after Snap, balBefore map[int]*big.Int, pend map[int]*big.Int, err error) []monFail {
 	var out []monFail
 	add := func(kind, f string, a ...interface{}) { out = append(out, monFail{kind, fmt.Sprintf(f, a...)}) }
-	// Σ delegations = validator shares
+	// Σ delegations = validator shares; no historical record is referenced more than twice (the bound
+	// the SDK's incrementReferenceCount panics on)
 	for i, v := range after.Vals {
 		if v.sumDels().Cmp(v.Shares) != 0 {
 			add("sum-shares", "validator %d: sum of delegations %s != validator shares %s", i, v.sumDels(), v.Shares)
+		}
+		for _, h := range v.Hist {
+			if h[1] > 2 {
+				add("refcount-gt-2", "validator %d: historical rewards of period %d have reference count %d", i, h[0], h[1])
+			}
 		}
 	}
 	if o.K != "block" && o.K != "mature" && err != nil {
@@ -613,6 +619,28 @@ func (w *World) monitor(o Op, before, after Snap, balBefore map[int]*big.Int, pe
 		}
 		if fmt.Sprint(before.Allow) != fmt.Sprint(after.Allow) {
 			add("failed-call-wrote", "%s failed (%v) but allowances changed", o.K, err)
+		}
+	}
+	if (o.K == "transfer" || o.K == "transferFrom") && err != nil {
+		// liveness of the interface: with a sufficient delegation, no incoming redelegation and (for
+		// transferFrom) a sufficient allowance there is no reason to refuse
+		from, spender := o.A, -1
+		if o.K == "transferFrom" {
+			spender, from = o.A, o.B
+		}
+		x := bigOf(o.X)
+		okPre := x.Sign() > 0 && before.Vals[o.V].del(from).Cmp(new(big.Int).Mul(x, one18)) >= 0
+		for _, rd := range before.Reds {
+			if rd[0] == from && rd[2] == o.V {
+				okPre = false
+			}
+		}
+		if spender >= 0 && before.allowance(o.V, from, spender).Cmp(x) < 0 {
+			okPre = false
+		}
+		if okPre {
+			add("transfer-refused", "%s of %s shares refused (%s) although the sender holds %s, has no incoming redelegation and the allowance suffices",
+				o.K, o.X, oneLine(err.Error()), before.Vals[o.V].del(from))
 		}
 	}
 	if (o.K == "transfer" || o.K == "transferFrom") && err == nil {
@@ -1129,7 +1157,7 @@ func main() {
 
 	nNoSelf, nSelf, nOps, nFull = 36, 10, 45, 3
 	if lib.Tier() == "thorough" || mode == "search" {
-		nNoSelf, nSelf, nOps, nFull = 400, 60, 70, 10
+		nNoSelf, nSelf, nOps, nFull = 300, 40, 60, 6
 	}
 	if v := lib.EnvInt("VERIF_N", 0); v > 0 {
 		nNoSelf = int(v)
